@@ -117,6 +117,25 @@ func (w *diffWorker) compareSides(op byte, pre ref.State, rp, ra stepRes, mp, ma
 				wa = append(wa, x)
 			}
 		}
+		{
+			// ... and the same reads: a register that reacts to being read (clear-on-read flags,
+			// auto-increment ports) makes an extra or missing read a difference in memory contents
+			var rp2, ra2 []mem.Access
+			for _, x := range mp.Log {
+				if !x.Write {
+					rp2 = append(rp2, x)
+				}
+			}
+			for _, x := range ma.Log {
+				if !x.Write {
+					ra2 = append(ra2, x)
+				}
+			}
+			if fmt.Sprint(rp2) != fmt.Sprint(ra2) {
+				w.r.Fail("read-order:"+ref.MnemNames[ref.Table[op].M]+" "+ref.ModeNames[ref.Table[op].Mode], fmt.Sprintf("%s %s: bus reads primary %v alternative %v | pre={%v}", where, name, rp2, ra2, pre), detail())
+				return false
+			}
+		}
 		if fmt.Sprint(wp) != fmt.Sprint(wa) {
 			w.r.Fail("write-order:"+ref.MnemNames[ref.Table[op].M]+" "+ref.ModeNames[ref.Table[op].Mode], fmt.Sprintf("%s %s: bus writes (address value) primary %v alternative %v | pre={%v}", where, name, wp, wa, pre), detail())
 			return false
